@@ -3,7 +3,7 @@
  "name": "add_journal_inode3_protocol",
  "props": ["C07"],
  "level": "P",
- "tier": "wip",
+ "tier": "quick",
  "harness": "h_add_journal_inode3_protocol",
  "replace": ["ext2fs_create_journal_superblock2", "get_midpoint_journal_block"],
  "sources": ["lib/ext2fs/blknum.c"],
